@@ -39,7 +39,7 @@ def main():
     a = ap.parse_args()
     checks = a.checks.split(',')
     items = []
-    for p in sorted(glob.glob(os.path.join(VERIF, a.dir, '*', 'patch.diff'))) + sorted(glob.glob(os.path.join(VERIF, a.dir, '*.diff'))):
+    for p in sorted(glob.glob(os.path.join(VERIF, a.dir, '*', 'patch.diff') if not os.path.isabs(a.dir) else os.path.join(a.dir, '*', 'patch.diff'))) + sorted(glob.glob(os.path.join(a.dir if os.path.isabs(a.dir) else os.path.join(VERIF, a.dir), '*.diff'))):
         name = os.path.basename(os.path.dirname(p)) if p.endswith('patch.diff') else os.path.basename(p)[:-5]
         if a.only and name not in a.only.split(','):
             continue
